@@ -2,6 +2,8 @@ import CaoModel.Driver.StackEngine
 import CaoModel.Driver.MapEngine
 import CaoModel.Driver.ValueEngine
 import CaoModel.Driver.CompileEngine
+import CaoModel.Driver.VmEngine
+import CaoModel.Driver.ModEngine
 open Cao Cao.Driver
 
 structure DState where
@@ -10,6 +12,8 @@ structure DState where
   hm : HmState := {}
   ht : HtState := {}
   tbl : TblState := {}
+  vm : VmEngState := {}
+  mod : ModState := {}
 
 def step (d : DState) (line : String) : DState × String :=
   match line.trimAscii.toString.splitOn " " with
@@ -18,6 +22,8 @@ def step (d : DState) (line : String) : DState × String :=
   | "hm" :: args => let (s, o) := hmStep d.hm args; ({ d with hm := s }, o)
   | "val" :: args => (d, valStep args)
   | "cmp" :: args => (d, cmpStep args)
+  | "mod" :: args => let (s, o) := modStep d.mod args; ({ d with mod := s }, o)
+  | "vm" :: args => let (s, o) := vmStep d.vm args; ({ d with vm := s }, o)
   | "tbl" :: args => let (s, o) := tblStep d.tbl args; ({ d with tbl := s }, o)
   | "ht" :: args => let (s, o) := htStep d.ht args; ({ d with ht := s }, o)
   | _ => (d, "bad-op")
